@@ -18,7 +18,7 @@ From Coq Require Import List Bool Arith ZArith.
 Import ListNotations.
 From Stab.model Require Import Base StatusM Readiness StageStat Engine.
 From Stab.gen Require Import Gen_Config.
-From Stab.proofs Require Import StageStatP EngineEx.
+From Stab.proofs Require Import StageStatP EngineEx SynP.
 
 Theorem C05_succeeded_sound_partial : forall stages ov rc mx,
   determine_final_status stages ov rc mx = Final SUCCEEDED ->
@@ -82,6 +82,16 @@ Example C05_witness :
   determine_status RUNNING false true [] [SUCCEEDED; TERMINAL] [] = TERMINAL.
 Proof. vm_compute. repeat split. Qed.
 
+(* the engine stores a stage's status, in CompleteStage, only as determine_status says over the stage's tasks and the
+   CURRENT durable statuses of its before / after stages (with the _blocking_failure conversion) - so, with
+   C05_stage_not_early, a stage is never recorded as finished while a task or a synthetic stage of it is unfinished *)
+Theorem C05_complete_stage_stores : forall s id i st c p,
+  get_stage s i = Some st -> In c (h_commits (handle_complete_stage s id i)) -> In (OPut i p) c ->
+  s_status p = s_status st \/
+  s_status p = (let x := stage_status_of s i st in
+                if status_eqb x FAILED_CONTINUE && y_blocking (s_syn st) then TERMINAL else x).
+Proof. exact complete_stage_stores. Qed.
+
 Print Assumptions C05_succeeded_sound_partial.
 Print Assumptions C05_succeeded_stopped_refuted.
 Print Assumptions C05_failed_reported.
@@ -89,3 +99,4 @@ Print Assumptions C05_canceled_reported.
 Print Assumptions C05_final_is_complete.
 Print Assumptions C05_stage_not_early.
 Print Assumptions C05_engine_uses_it.
+Print Assumptions C05_complete_stage_stores.
